@@ -304,13 +304,23 @@ def run(ctx):
     if loop is None:
         raise AnalysisError("R14.5: line loop not found")
     line_var = norm(loop.target)
-    ctor_calls = [c for c in calls_in(it) if isinstance(c.func, ast.Name) and any(isinstance(k, ast.keyword) and k.arg is None for k in c.keywords)
-                  and not isinstance(prog.resolve_expr(jf, c.func), (DefRef, Ref))]
+    def _is_desc_ctor(e):
+        return isinstance(e, ast.Call) and getattr(prog.resolve_expr(jf, e.func), "qualname", "") == "flow.record.base.RecordDescriptor"
+
+    ctor_calls = [c for c in calls_in(it) if any(isinstance(k, ast.keyword) and k.arg is None for k in c.keywords)
+                  and ((isinstance(c.func, ast.Name) and not isinstance(prog.resolve_expr(jf, c.func), (DefRef, Ref))) or _is_desc_ctor(c.func))]
     ctx.floor("R14.5", "fallback record constructions in JsonfileReader.__iter__", len(ctor_calls), 1)
     for c in ctor_calls:
-        dvar = c.func.id
-        rdefs = cfg.reaching_defs(dvar)[cfg.node_of(c).id]
-        defs = [cfg.nodes[i].ast for i in rdefs if cfg.nodes[i].ast is not None]
+        if isinstance(c.func, ast.Name):
+            dvar = c.func.id
+            rdefs = cfg.reaching_defs(dvar)[cfg.node_of(c).id]
+            defs = [cfg.nodes[i].ast for i in rdefs if cfg.nodes[i].ast is not None]
+        else:
+            # RecordDescriptor(...)(**line): the descriptor expression itself, as if assigned on the spot
+            dvar = "<descriptor>"
+            syn = ast.Assign(targets=[ast.Name(id=dvar, ctx=ast.Store())], value=c.func)
+            syn._inline_desc = True
+            defs = [syn]
         def derived_from_line(expr, depth=0):
             if depth > 6:
                 return False
@@ -323,6 +333,12 @@ def run(ctx):
                 if nm == line_var or prog.resolve_global(jf, nm) is not None or nm in ("key", "val", "k", "v"):
                     continue
                 srcs = [st for st in ast.walk(loop) if isinstance(st, ast.Assign) and any(norm(t) == nm for t in st.targets)]
+                # values put into a list that is filled in place, and loop variables bound inside the line loop
+                srcs += [ast.Assign(targets=[], value=cc.args[0]) for cc in ast.walk(loop) if isinstance(cc, ast.Call) and isinstance(cc.func, ast.Attribute)
+                         and cc.func.attr in ("append", "add", "extend") and norm(cc.func.value) == nm and cc.args]
+                inner = [f2 for f2 in ast.walk(loop) if isinstance(f2, ast.For) and f2 is not loop and nm in {x.id for x in ast.walk(f2.target) if isinstance(x, ast.Name)}]
+                if inner:
+                    srcs += [ast.Assign(targets=[], value=f2.iter) for f2 in inner]
                 comp_bound = any(isinstance(g, ast.comprehension) and nm in {x.id for x in ast.walk(g.target) if isinstance(x, ast.Name)} for g in ast.walk(expr))
                 if comp_bound:
                     continue
@@ -332,7 +348,7 @@ def run(ctx):
             return ok
         good = bool(defs) and all(isinstance(d, ast.Assign) and isinstance(d.value, ast.Call) and
                                   getattr(prog.resolve_expr(jf, d.value.func), "qualname", "") == "flow.record.base.RecordDescriptor" and
-                                  any(d in list(ast.walk(s0)) for s0 in loop.body) and derived_from_line(d.value) for d in defs)
+                                  (getattr(d, "_inline_desc", False) or any(d in list(ast.walk(s0)) for s0 in loop.body)) and derived_from_line(d.value) for d in defs)
         ctx.check(good, "R14.5", f"JsonfileReader.__iter__:{dvar}", f"the descriptor for a plain JSON line is defined by {[norm(d)[:60] for d in defs]}: it does not derive from the "
                   "current line alone (e.g. a cache keyed by the key names), so the field types of an earlier line coerce later values", c,
                   "descriptor built from the current line", key="R14.5:JsonfileReader.__iter__:descriptor-not-from-line")
